@@ -656,9 +656,51 @@ def bias_case(m, c):
         if bits is not None and e.parameters.num_bits != bits: return f'{r.tensor_name}: {e.parameters.num_bits}-bit parameters, expected {bits}'
     return None
 
+# ================================================================================================ (viii) float casting (fp16 weight-only)
+FP16_OPS = {'FULLY_CONNECTED': (0, 1, 2, None), 'CONV_2D': (0, 1, 2, None), 'DEPTHWISE_CONV_2D': (0, 1, 2, None), 'EMBEDDING_LOOKUP': (0, 1, None, None), 'CONV_2D_TRANSPOSE': (2, 1, 3, 0)}   # operand positions: input, weight, bias, int32 shape operand
+def fp16_cases():
+    for op, (xi, wi, bi, si) in FP16_OPS.items():
+        for bias in ((True, False) if bi is not None else (False,)): yield dict(op=op, bias=bias)
+def fp16_case(m, c):
+    """the registered float_casting materialize function of the operator on a real synthetic op (property text: float16-cast operators read float activations
+    and receive their weights through a DEQUANTIZE of a float16 constant): weight -> [ADD_DEQUANTIZE] with 16-bit non-linear parameters holding the float16 data;
+    every other operand that gets an entry -> [NO_QUANTIZE] without parameters; the activation input and the output do get an entry"""
+    S = m.schema; q = m.q; xi, wi, bi, si = FP16_OPS[c['op']]
+    tensors, buffers = [], [S.BufferT()]
+    def add(name, shape, data, ttype=F32):
+        t = S.TensorT(); t.name = name.encode(); t.shape = np.array(shape, np.int32); t.type = ttype; b = S.BufferT()
+        if data is not None: b.data = np.frombuffer(np.asarray(data).tobytes(), np.uint8)
+        buffers.append(b); t.buffer = len(buffers) - 1; tensors.append(t); return len(tensors) - 1
+    n_in = 1 + max(i for i in (xi, wi, bi, si) if i is not None); ins = [-1] * n_in
+    W = (np.arange(24, dtype=np.float32).reshape(4, 6) - 11.5) / 7
+    ins[xi] = add('x', (1, 6), None, I32 if c['op'] == 'EMBEDDING_LOOKUP' else F32); ins[wi] = add('w', (4, 6), W)
+    if bi is not None and c['bias']: ins[bi] = add('b', (4,), np.linspace(-1, 1, 4).astype(np.float32))
+    if si is not None: ins[si] = add('shape', (4,), np.array([1, 2, 2, 4], np.int32), I32)
+    y = add('y', (1, 4), None)
+    op = S.OperatorT(); op.inputs = np.array(ins, np.int32); op.outputs = np.array([y], np.int32)
+    cfg = q.OpQuantizationConfig(weight_tensor_config=q.TensorQuantizationConfig(16, dtype=q.TensorDataType.FLOAT), compute_precision=q.ComputePrecision.FLOAT, explicit_dequantize=True)
+    A = m.am.AlgorithmName.FLOAT_CASTING; opn = q.TFLOperationName(c['op'])
+    try:
+        m.am.check_op_quantization_config(A, opn, cfg)
+        f = m.am.get_quantization_func(A, opn, q.QuantizeMode.MATERIALIZE)
+        res = f(q.OpInfo(op=op, op_name=opn, subgraph_op_index=4, op_quant_config=cfg), q.GraphInfo(subgraph_tensors=tensors, buffers=buffers), {})
+    except Exception as e: return 'raises ' + describe(e)
+    by = {r.tensor_name: r for r in res}
+    if len(by) != len(res) or not {'x', 'w', 'y'} <= set(by) or (c['bias'] and 'b' not in by): return f'entries {[r.tensor_name for r in res]}'
+    for nme, r in by.items():
+        e = r.producer if nme == 'y' else (r.consumers or [None])[0]
+        if e is None or e.subgraph_op_id != 4 or (nme == 'y') != (r.consumers is None): return f'{nme}: {r!r}'[:200]
+        tr = [t.name for t in e.transformations]
+        if nme == 'w':
+            p = e.parameters
+            if tr != ['ADD_DEQUANTIZE'] or not isinstance(p, q.NonLinearQuantParams) or p.num_bits != 16 or p.quantized_data is None or p.quantized_data.dtype != np.float16 or not np.array_equal(p.quantized_data, W.astype(np.float16)):
+                return f'weight: {tr} with {type(p).__name__}'
+        elif tr != ['NO_QUANTIZE'] or e.parameters is not None: return f'{nme}: {tr} parameters={e.parameters!r}'[:200]
+    return None
+
 # ================================================================================================ dispatch for replay
 FAMILY = {'tiwd': tiwd_case, 'split': split_case, 'merge': merge_case, 'mode': mode_case, 'admitted': admitted_case, 'materialize': materialize_case, 'ignored-lists': helper_ignored_lists_case, 'noquant': noquant_case,
-          'routing': routing_case, 'algebra': algebra_case, 'frame': frame_case, 'bias': bias_case}
+          'routing': routing_case, 'algebra': algebra_case, 'frame': frame_case, 'bias': bias_case, 'fp16': fp16_case}
 def run_case(m, family, case):
     """-> (fails, observed text)"""
     try:
